@@ -10,8 +10,9 @@ from the repeat-offset history the dictionary installs.
 
 The match finders stay an ORACLE (a parse per block, see Model/BlockEnc.lean); with a dictionary their matches may reach into the
 dictionary content, and the first sequences may use the dictionary's repeat offsets.  The dictionary's entropy TABLES are not used
-by this writer: it emits `set_basic` / `set_rle` tables and fresh Huffman trees only (the scope of Model/BlockEnc.lean), never
-`set_repeat` / treeless literals, so nothing but the repeat offsets and the content of the dictionary matters for the bytes.
+by this writer: it emits `set_basic` / `set_rle` / `set_compressed` tables, `set_repeat` only of a table an earlier block of the SAME
+frame used (`serializeBlocks2` starts from `prev = none`), and fresh Huffman trees only (the scope of Model/BlockEnc.lean), never
+treeless literals, so nothing but the repeat offsets and the content of the dictionary matters for the bytes.
 `Lemmas/DictRT.lean` proves that `Frame.decompressAll` with the same dictionary (as loaded by `Dict.loadD`) maps these frames back to
 their input (`dict_roundtrip`).  Core imports only.
 -/
